@@ -82,6 +82,10 @@ ENTRIES = [
     ('huf_u16', huf('u16')),
     ('sl_huf_u8', sl(huf('u8'))),
     ('tup2_huf_str', tup2(huf('u8'), STR)),
+    ('col_huf_u8', col(huf('u8'))),
+    ('sl_vecr_u32', sl(vecr('u32'))),
+    ('opt_vecr_u64', opt(vecr('u64'))),
+    ('res_vecr_u8_vecr_u16', res(vecr('u8'), vecr('u16'))),
 ]
 
 # FlatStack<R, S> entries: name -> (region expression, index container)
